@@ -66,6 +66,21 @@ def gen_vparse(tier, rng):
         add('1.2.3-' + 'a' * (L - 6)); add('1.2.3' + 'a' * (L - 5)); add('1.2.3+' + 'b' * (L - 6))
         add('1.2.3-' + 'a' * (L - 8) + 'é'); add('1.2.3-' + 'a' * (L - 9) + '\U0001F600'); add(' ' * (L - 5) + '1.2.3'); add('1.2.3' + ' ' * (L - 5))
         add('1.2.3-' + '.'.join(['ab'] * ((L - 6) // 3)))
+    # combinations: prerelease and build lists of 0-2 identifiers of every awkward shape, in every spelling
+    ids = ['0', '00', '-0', '0-', '0a', 'a0', 'a', 'A', '-', '1', '10', 'rc', 'x', '1a-', '--', '01', 'rc1', '9007199254740993', '18446744073709551615', '18446744073709551616']
+    lists_ = [[]] + [[i] for i in ids] + [[rng.choice(ids), rng.choice(ids)] for _ in range(40)] + [[rng.choice(ids), rng.choice(ids), rng.choice(ids)] for _ in range(10)]
+    for pre in lists_:
+        for bld in lists_:
+            if rng.random() < 0.5 and pre and bld: continue
+            core = rng.choice(['1.2.3', '0.0.0', '10.20.30'])
+            t = core + ('-' + '.'.join(pre) if pre else '') + ('+' + '.'.join(bld) if bld else '')
+            add(t)
+            if pre and pre[0][0].isalpha(): add(core + '.'.join(pre) + ('+' + '.'.join(bld) if bld else ''))          # hyphen-less spelling
+            k = rng.random()
+            if k < 0.15: add('v' + t)
+            elif k < 0.3: add(' V ' + t + '\t ')
+            elif k < 0.4: add(t + '+' + rng.choice(ids))
+            elif k < 0.5: add(t + '-' + rng.choice(ids))
     # over-long, several lines, multi-byte scalars on the LAST line before its last scalar (bytes vs characters in the column of location())
     for pre in ('1.2.3-\u00e9\n', '1.2.3\n', 'v1.2.3\r\n\r\n  ', '\n\n', 'a\nb\n', '\u00e9\n\u00e9\n'):
         for mid in ('\u00e9', '\u20ac.\U0001F600', '1.2.3-\u00e9', '\u00e9\u00e9\u00e9', 'x\u00e9y'):
@@ -92,6 +107,15 @@ def gen_vparse(tier, rng):
             if len(d) > 45: continue
             for pat in ['%s.2.3', '1.%s.3', '1.2.%s', '1.2.3-%s', '1.2.3-a.%s', '1.2.3+%s']:
                 add(pat % d)
+    # digit strings by shape: every count of significant digits from 1 to 45 (leading digit 1 and 9), with 0, 1, 2 and 7 zeros in front, at each position:
+    # padding and magnitude vary independently (a padded number beyond 2^64, an unpadded one of 20 digits, ...)
+    for z in (0, 1, 2, 7):
+        for k in range(1, 46):
+            for lead in ('1', '9'):
+                d = '0' * z + lead + '0' * (k - 1) if lead == '1' else '0' * z + '9' * k
+                if len(d) > 50: continue
+                for pat in ['1.2.3-%s', '1.2.3-rc.%s', '1.2.3+%s', '1.2.3-a+exp.%s', '1.2.%s', '%s.2.3']:
+                    add(pat % d)
     # multi-line / multi-byte rejected inputs for the error reports
     for s in ['1.2\n.3', '\n\n1.2.x', 'a\nb\nc', '1.2.3\n', 'é\n1.2', '1.2.é', '1.\U0001F600.3', '\t\n 1.2.3', '1.2.3-é', 'x\r\ny', '1.2.3\n\n\n-']:
         add(s)
